@@ -434,6 +434,29 @@ func StoredTargets(m *big.Int) []*big.Int {
 		}
 	}
 
+	// multiplication by a small constant c done by hand (limb-wise scaling with a folded overflow limb) goes over
+	// 2^256 resp. over m exactly around j*2^256/c and j*m/c: the constants of this code base are 3 (tripling), 7 (b),
+	// 11 (Z), 21 (3b) and 1771 (B')
+	for _, c := range []int64{3, 7, 11, 21, 1771} {
+		js := []int64{}
+		if c <= 21 {
+			for j := int64(1); j < c; j++ {
+				js = append(js, j)
+			}
+		} else {
+			js = []int64{1, 2, 3, c / 3, c / 2, c/2 + 1, c - 3, c - 2, c - 1}
+		}
+
+		for _, j := range js {
+			for _, top := range []*big.Int{two256, m} {
+				base := new(big.Int).Div(new(big.Int).Mul(top, bi(j)), bi(c))
+				for d := int64(-1); d <= 1; d++ {
+					add(addI(base, d))
+				}
+			}
+		}
+	}
+
 	return out
 }
 
@@ -521,4 +544,70 @@ func ReprPairHitting(p, q oracle.Pt, l1 *big.Int, which string, t *big.Int) (Rep
 	}
 
 	return Repr{Kind: "scaled", L: oracle.FMul(v, oracle.FInv0(den))}, true
+}
+
+// PointWithStoredY2 returns a curve point whose y^2 (= x^3+7) has the STORED value t, if one exists: the value the
+// decoders' curve-equation check compares. Such points put that comparison, and the squaring / addition that feed it,
+// on structured limb patterns although the encoding looks random.
+func PointWithStoredY2(t *big.Int) (oracle.Pt, bool) {
+	v := oracle.FromMont(oracle.Limbs(t), oracle.P)
+
+	y, ok := oracle.FSqrt(v)
+	if !ok {
+		return oracle.Pt{}, false
+	}
+
+	x, ok := oracle.FCubeRoot(oracle.FSub(v, big.NewInt(7)))
+	if !ok {
+		return oracle.Pt{}, false
+	}
+
+	p := oracle.Pt{X: x, Y: y}
+
+	return p, oracle.OnCurve(p)
+}
+
+// PointWithStoredX3 returns a curve point whose x^3 has the stored value t.
+func PointWithStoredX3(t *big.Int) (oracle.Pt, bool) {
+	v := oracle.FromMont(oracle.Limbs(t), oracle.P)
+
+	x, ok := oracle.FCubeRoot(v)
+	if !ok {
+		return oracle.Pt{}, false
+	}
+
+	return oracle.LiftX(x, 0)
+}
+
+// NearMissY returns y such that the stored form of y^2 differs from the stored form of x^3+7 in exactly one bit: the
+// pair (x, y) is off the curve by the smallest possible margin in the domain in which the implementation compares.
+func NearMissY(x *big.Int, bit int) (*big.Int, bool) {
+	rhs := oracle.FAdd(oracle.FMul(oracle.FSqr(x), x), big.NewInt(7))
+	l := oracle.ToMont(rhs, oracle.P)
+	l[bit/64] ^= 1 << uint(bit%64)
+
+	t := oracle.FromLimbs(l)
+	if t.Cmp(oracle.P) >= 0 {
+		return nil, false
+	}
+
+	return oracle.FSqrt(oracle.FromMont(l, oracle.P))
+}
+
+// DecodeTargets extends StoredTargets by the values just below p - c*(2^32+977) (adding the stored form of the small
+// constant c, e.g. b = 7, carries over p exactly there).
+func DecodeTargets() []*big.Int {
+	out := StoredTargets(oracle.P)
+	one := oracle.Mod(oracle.R, oracle.P) // stored form of 1
+
+	for _, c := range []int64{1, 2, 3, 7, 8, 21} {
+		base := new(big.Int).Sub(oracle.P, new(big.Int).Mul(one, big.NewInt(c)))
+		for d := int64(-3); d <= 3; d++ {
+			if v := new(big.Int).Add(base, big.NewInt(d)); v.Sign() > 0 && v.Cmp(oracle.P) < 0 {
+				out = append(out, v)
+			}
+		}
+	}
+
+	return out
 }
